@@ -15,7 +15,6 @@ extern "C" {
   int  vf_deliver(unsigned seqnum, const void *msg);
   int  vf_is_admin(const void *msg);
   int  vf_authenticate(void);
-  void vf_msg_deleted(const void *msg);
   extern char vf_gen_token;
   extern void *_ZTV8VSession[];
   extern void *_ZTV8VMessage[];
@@ -48,23 +47,24 @@ struct VSession : Session
 };
 VSession::~VSession() {}                                  // never run; Session::~Session is a cut point (shims/sess.stubs)
 
-// abstract inbound message: the Message/MessageBase members are built by the real MessageBase constructor (empty trait
-// table); `delete msg` in Session::process runs the real destructors and ends in the class-level operator delete below
+// abstract inbound message: the Message/MessageBase members are built by the real MessageBase constructor (empty trait table).
+// `delete msg` in Session::process ends in VMessage's deleting destructor, which is a cut point (shims/sess.stubs: recorded, the
+// object stays intact): MessageBase's own vtable lives in runtime/message.cpp (codec world), outside this translation unit.
 struct VHeader : MessageBase
 {
-  VHeader(const F8MetaCntx& c, const f8String& t);
-  void operator delete(void *p) { }
+  VHeader() = delete;
+  ~VHeader() override;
 };
-VHeader::VHeader(const F8MetaCntx& c, const f8String& t) : MessageBase(c, t, no_traits(), 0, nullptr) {}
+VHeader::~VHeader() {}
 struct VMessage : Message
 {
-  VMessage(const F8MetaCntx& c, const f8String& t);
+  VMessage() = delete;
+  ~VMessage() override;                                   // key function (vtable anchor); D0 is the cut point
   bool is_admin() const override { return vf_is_admin(this); }
-  void operator delete(void *p) { vf_msg_deleted(p); }
   // attribute objects the accessor stubs hand out by pointer (real field objects built by their real constructors)
   f8String _vtype; sender_comp_id _vsci; target_comp_id _vtci; reset_seqnum_flag _vreset;
 };
-VMessage::VMessage(const F8MetaCntx& c, const f8String& t) : Message(c, t, no_traits(), 0, nullptr) {}
+VMessage::~VMessage() {}
 
 extern "C" {
 // the namespace-scope std::string constants the session code compares message types with (their dynamic initialisers)
